@@ -155,6 +155,11 @@ func (g *GoFakeS3) hostBucketBaseMiddleware(handler http.Handler) http.Handler {
 			if idx := strings.IndexByte(bucket, '.'); idx >= 0 {
 				continue
 			}
+			if bucket == "" {
+				// ".base" names no bucket: served path-style like any other
+				// host that is not "<label>.<base>".
+				continue
+			}
 			return bucket, true
 		}
 		return "", false
